@@ -17,14 +17,19 @@ func init() { cmds["C15"] = runC15 }
 // one bifurcation case: store holds 1..subj, the candidate is the chain header at `nw` (or a forgery at
 // that height), non-adjacent verification succeeds up to distance R (0 = unlimited).
 func c15Case(chain []*vhdr.Header, subj, nw int, R uint64, forged bool, failH int) {
+	c15CaseAt(0, chain, subj, nw, R, forged, failH)
+}
+
+// c15CaseAt: the chain sits at heights base+1.. (all printed heights are relative to base)
+func c15CaseAt(base uint64, chain []*vhdr.Header, subj, nw int, R uint64, forged bool, failH int) {
 	ctx := context.Background()
 	vhdr.TrustRange.Store(R)
 	defer vhdr.TrustRange.Store(0)
 	st := newStoreWith(chain, 1, subj)
 	defer st.Stop(ctx) //nolint:errcheck
-	g := &scriptGetter{chain: chain, failH: map[uint64]bool{}, budget: 20000}
+	g := &scriptGetter{chain: chain, base: base, failH: map[uint64]bool{}, budget: 20000}
 	if failH > 0 {
-		g.failH[uint64(failH)] = true
+		g.failH[base+uint64(failH)] = true
 	}
 	s, _ := newSyncer(g, st, hsync.WithBlockTime(time.Second), hsync.WithTrustingPeriod(1000*time.Hour))
 	cand := chain[nw-1]
@@ -51,19 +56,25 @@ func c15Case(chain []*vhdr.Header, subj, nw int, R uint64, forged bool, failH in
 			res = "other"
 		}
 	}
+	rel := func(h uint64) uint64 { return h - base } // (wraps for requests below the chain: they show up as huge numbers)
 	reqs := heightsOf(g.take(), "H:")
+	for i := range reqs {
+		reqs[i] = rel(reqs[i])
+	}
 	var pend []uint64
 	for _, r := range s.VerifPendingHeights() {
-		pend = append(pend, r...)
+		for _, h := range r {
+			pend = append(pend, rel(h))
+		}
 	}
 	local := uint64(0)
 	if h, e := s.VerifLocalHead(ctx); e == nil {
-		local = h.H
+		local = rel(h.H)
 	}
 	stHead := uint64(0)
 	_ = st.Sync(ctx)
 	if h, e := st.Head(ctx); e == nil {
-		stHead = h.H
+		stHead = rel(h.H)
 	}
 	emit("C15 subj=%d new=%d R=%d forged=%d failH=%d => res=%s requests=%s pending=%s local=%d storehead=%d",
 		subj, nw, R, b2i(forged), failH, res, joinU(reqs), joinU(pend), local, stHead)
@@ -92,6 +103,14 @@ func runC15(tier string, r *rng) {
 		d, R := dr[0], uint64(dr[1])
 		for h := 4; h < 3+d; h++ {
 			c15Case(chain, 3, 3+d, R, false, h)
+		}
+	}
+	// the same bisections at the 64-bit boundaries: heights around 2^63 (sums of two heights wrap) and near 2^64
+	for _, base := range []uint64{1<<63 - 20, 1 << 63, ^uint64(0) - 300} {
+		bc := vhdr.ChainFrom("A", base, 120, time.Now().Add(-2*time.Hour).UnixNano(), 1e9, 0)
+		for _, dr := range [][2]int{{9, 1}, {17, 3}, {40, 7}, {33, 0}, {100, 5}} {
+			c15CaseAt(base, bc, 3, 3+dr[0], uint64(dr[1]), false, -1)
+			c15CaseAt(base, bc, 3, 3+dr[0], uint64(dr[1]), true, -1)
 		}
 	}
 	// random larger distances
